@@ -4,6 +4,7 @@ import (
 	"encoding/json"
 	"fmt"
 	"math/rand"
+	"strings"
 
 	"verif/harness/cbsim"
 	"verif/harness/drv"
@@ -159,6 +160,9 @@ func OracleDurable(tr *Trace, prop string) []Finding {
 			fs = append(fs, Finding{prop, "store-behind", prop + "/store-behind/" + shape,
 				fmt.Sprintf("check %d: vb %d settled up to %d (by %s; furthest absorbed %d) before Commit() was called at tick %d, Commit() returned, %s", ci, vb, flagged, flaggedBy, settled, ck.TCommitCall, have)})
 		}
+		if ck.Stale && ck.IdleWrites != 0 {
+			fs = append(fs, Finding{prop, "idle-write", prop + "/idle-write/stale-ack", fmt.Sprintf("check %d: after a completed save, %d acknowledgement(s) of events older than the tracked position changed nothing, yet the next Commit() performed %d checkpoint write(s)", ci, ck.StaleAcks, ck.IdleWrites)})
+		}
 		if ck.IdleWrites != 0 && !ck.NoIdle {
 			fs = append(fs, Finding{prop, "idle-write", prop + "/idle-write", fmt.Sprintf("check %d: a Commit() issued right after a completed save with nothing new performed %d checkpoint write(s)", ci, ck.IdleWrites)})
 		}
@@ -169,6 +173,9 @@ func OracleDurable(tr *Trace, prop string) []Finding {
 func c05Spec(rng *rand.Rand, i int) (*SessSpec, string) {
 	kinds := []string{"plain", "inflight", "fail", "nondoc", "cb", "auto", "cbfault", "file"}
 	kind := kinds[i%len(kinds)]
+	if i%16 == 9 {
+		kind = "selfstop"
+	}
 	sp := &SessSpec{NumVB: 1 + rng.Intn(6), Nodes: 1 + rng.Intn(2), AckSeed: rng.Int63(), Backlog: map[int][][]ItemSpec{}, Backend: "mem"}
 	sp.PNow, sp.PDefer = 0.4, 0.5
 	o := &HistOpts{NumVB: sp.NumVB, PReserved: 0.12, PSystem: 0.08, PSeqAdv: 0.2, MaxItems: 4}
@@ -193,9 +200,21 @@ func c05Spec(rng *rand.Rand, i int) (*SessSpec, string) {
 		o.PSystem, o.PSeqAdv, o.PReserved = 0.5, 0.6, 0.05
 	}
 	for vb := 0; vb < sp.NumVB; vb++ {
-		if rng.Intn(2) == 0 {
+		if rng.Intn(2) == 0 || kind == "selfstop" {
 			sp.Backlog[vb] = append(sp.Backlog[vb], genSnap(rng, o, &ctr))
 		}
+	}
+	if kind == "selfstop" {
+		// finite mode with automatic checkpointing and a long interval: every stream ends at the sequence number sampled at
+		// start-up, the client stops on its own, and the save performed during that shutdown is the only one
+		sp.Mode, sp.Auto, sp.IntervalMs = "finite", true, 60000
+		sp.Backend = []string{"mem", "cb", "file"}[rng.Intn(3)]
+		sp.PNow, sp.PDefer = 0.8, 0
+		if rng.Intn(2) == 0 {
+			sp.PNow = 1
+		}
+		sp.Steps = []Step{{Op: "selfstopcheck", Ms: 8000}}
+		return sp, kind
 	}
 	rounds := 1 + rng.Intn(3)
 	for r := 0; r < rounds; r++ {
@@ -253,6 +272,10 @@ func c05Spec(rng *rand.Rand, i int) (*SessSpec, string) {
 		}
 		sp.Steps = append(sp.Steps, Step{Op: "check"})
 	}
+	if kind == "plain" || kind == "cb" || kind == "file" {
+		// out-of-order settling: the newest pending events first, a save, then the older ones ("stale" acknowledgements)
+		sp.Steps = append(sp.Steps, app(), app(), Step{Op: "barrier"}, Step{Op: "ack", Sel: "newest", N: 2 + rng.Intn(3)}, Step{Op: "stalecheck"})
+	}
 	return sp, kind
 }
 
@@ -288,6 +311,12 @@ func init() {
 			}
 			tr := RunSession(&sp)
 			fs := OracleDurable(tr, "C05")
+			// a stored checkpoint is the position of one settled event: seqno together with that event's snapshot and branch
+			for _, f := range OracleTuples(tr) {
+				if strings.Contains(f.Key, "/stored") {
+					fs = append(fs, Finding{"C05", "stored-tuple", "C05/stored-tuple/" + f.Key[strings.LastIndex(f.Key, "/")+1:], f.Detail})
+				}
+			}
 			nt := len(sp.FailSaves) > 0 || len(sp.CBFaults) > 0 || sc.Kind == "nondoc"
 			var saveCall int64
 			for _, r := range tr.Log {
